@@ -19,8 +19,10 @@ Definition sx_tagid (x : sx) : tag := match find_tag (sx_string x) with Some t =
 Definition c19_pair_model (x : sx) : sx :=
   match find_tag (sx_string (sx_arg x 0)), find_tag (sx_string (sx_arg x 1)) with
   | Some a, Some b =>
-      L [of_bool (convertible a b); of_n (f64_bits (ratio_f64 a b));
-         of_string (unit_name (tag_unit a)); of_string (unit_name (tag_unit b))]
+      if convertible a b
+      then L [of_bool true; of_n (f64_bits (ratio_f64 a b));
+              of_string (unit_name (tag_unit a)); of_string (unit_name (tag_unit b))]
+      else L []          (* no Convert impl: nothing the implementation could be asked *)
   | _, _ => L []
   end.
 
@@ -32,8 +34,10 @@ Definition c19_pair_spec (x : sx) : sx :=
   match find_tag (sx_string (sx_arg x 0)), find_tag (sx_string (sx_arg x 1)) with
   | Some a, Some b =>
       let ua := tag_unit a in let ub := tag_unit b in
-      L [of_bool (spec_convertible ua ub); of_n (f64_bits (nearest_f64 (spec_ratio ua ub)));
-         of_string (cloudwatch_name ua); of_string (cloudwatch_name ub)]
+      if spec_convertible ua ub
+      then L [of_bool true; of_n (f64_bits (nearest_f64 (spec_ratio ua ub)));
+              of_string (cloudwatch_name ua); of_string (cloudwatch_name ub)]
+      else L []
   | _, _ => L []
   end.
 
